@@ -343,7 +343,7 @@ def splice_call(stmt, lookup):
     return leafs(body)
 
 
-def private_lookup(module=None, classes=(), owners=('self', 'cls')):
+def private_lookup(module=None, classes=(), owners=('self', 'cls'), skip=()):
     """lookup for Inliner / splice_call: `_name(..)` at module level, `self._name(..)` / `Class._name(..)`
     in the given class chain; only undecorated (or @staticmethod) single definitions qualify"""
     class_names = {c.name for c in classes}
@@ -357,7 +357,7 @@ def private_lookup(module=None, classes=(), owners=('self', 'cls')):
             name, scopes = f.attr, [c.body for c in classes]
         else:
             return None
-        if not name.startswith('_') or name.startswith('__'):
+        if not name.startswith('_') or name.startswith('__') or name in skip:
             return None
         for body in scopes:
             found = [n for n in body if isinstance(n, ast.FunctionDef) and n.name == name]
@@ -370,3 +370,70 @@ def private_lookup(module=None, classes=(), owners=('self', 'cls')):
                 return found[0]
         return None
     return lookup
+
+
+# ------------------------------------------------------------------ classes, loops over literal tables
+def class_chain(tree, name):
+    """the ClassDef `name` of the module followed by its base classes defined in the same module (MRO order
+    for single inheritance; good enough to find the private helper a `self._x(..)` call reaches)"""
+    by_name = {n.name: n for n in tree.body if isinstance(n, ast.ClassDef)}
+    out, todo = [], [name]
+    while todo:
+        n = todo.pop(0)
+        c = by_name.get(n)
+        if c is None or c in out:
+            continue
+        out.append(c)
+        todo += [b.id for b in c.bases if isinstance(b, ast.Name)]
+    return out
+
+
+def _literal_rows(it):
+    if not isinstance(it, (ast.Tuple, ast.List)):
+        return None
+    rows = []
+    for r in it.elts:
+        if isinstance(r, (ast.Tuple, ast.List)) and all(is_num_literal(x) or (isinstance(x, ast.Constant) and isinstance(x.value, str))
+                                                         for x in r.elts):
+            rows.append(list(r.elts))
+        elif is_num_literal(r) or (isinstance(r, ast.Constant) and isinstance(r.value, str)):
+            rows.append([r])
+        else:
+            return None
+    return rows
+
+
+def unroll_for_else(stmts):
+    """`for <names> in <literal table>: if <test>: <body>; break` + `else: <E>`  ->  the if/elif ladder with the
+    row constants substituted (first matching row runs its body and leaves the loop, no match runs E).  The
+    loop variables must not be read after the loop."""
+    out = []
+    for k, s in enumerate(stmts):
+        if isinstance(s, ast.If):
+            s = ast.If(test=s.test, body=unroll_for_else(s.body), orelse=unroll_for_else(s.orelse))
+        if not isinstance(s, ast.For):
+            out.append(s)
+            continue
+        rows = _literal_rows(s.iter)
+        names = [s.target.id] if isinstance(s.target, ast.Name) else (
+            [x.id for x in s.target.elts] if isinstance(s.target, ast.Tuple) and all(isinstance(x, ast.Name) for x in s.target.elts)
+            else None)
+        body = [b for b in s.body if not is_doc(b)]
+        if (rows is None or names is None or not rows or any(len(r) != len(names) for r in rows) or len(body) != 1
+                or not isinstance(body[0], ast.If) or body[0].orelse or not body[0].body
+                or not isinstance(body[0].body[-1], ast.Break) or not is_pure_expr(body[0].test)
+                or any(isinstance(n, (ast.Break, ast.Continue)) for b in body[0].body[:-1] for n in ast.walk(b))):
+            out.append(s)
+            continue
+        later = {n.id for t in stmts[k + 1:] for n in ast.walk(t) if isinstance(n, ast.Name) and isinstance(n.ctx, ast.Load)}
+        stored = {n.id for b in body[0].body for n in ast.walk(b) if isinstance(n, ast.Name) and isinstance(n.ctx, ast.Store)}
+        if later & set(names) or stored & set(names):
+            out.append(s)
+            continue
+        ladder = list(s.orelse)
+        for r in reversed(rows):
+            env = dict(zip(names, r))
+            ladder = [ast.If(test=subst(body[0].test, env), body=[subst(b, env) for b in body[0].body[:-1]] or [ast.Pass()],
+                             orelse=ladder)]
+        out += ladder
+    return out
